@@ -54,6 +54,11 @@ def gen_cases(rng, tier):
     grids = {"nr": rng.choice([3, 5, 9, 21, 40]), "nrho": rng.choice([2, 3, 5, 9])} if target == "excel_eam_fs" else None
     model = spec.gen_eam_model(rng, "fs", groute, target=target, unique_density=unique, grids=grids,
                                nspecies=rng.choice([1, 2, 2, 3, 3, 4]), with_forms=not unique)
+    if not unique and i % 4 == 1 and len(model["density"]) >= 2:
+      # two A->B definitions that read the same once the blanks between their tokens are removed ('1 25' / '12 5')
+      a, b, c = rng.randint(1, 9), rng.randint(1, 9), rng.randint(1, 9)
+      model["density"][0][2] = {"k": "form", "name": "polynomial", "p": [a, 10 * b + c]}
+      model["density"][1][2] = {"k": "form", "name": "polynomial", "p": [10 * a + b, c]}
     cluster = None
     if unique:
       sp = spec.eam_element_order(model)
